@@ -29,14 +29,17 @@ STRUCTS = {
           ("s1", "c", 1.0, "", 0.0, "p1"), ("s3", "c", 1.0, "", 0.0, "p1"), ("s1", "", 0.0, "", 0.0, "p1")],
     "C": [("s2", "b", 1.0, "c", 1.0, "q"), ("s1", "b", 1.0, "c", 1.0, "p"), ("s2", "b", 1.0, "c", 1.0, "p"),
           ("s1", "b", 1.0, "c", 1.0, "q"), ("s1", "b", 1.0, "c", 1.0, "r"), ("s2", "c", 1.0, "b", 1.0, "r")],
+    # single-agent measurements replicated across plates (the single-agent effect of a row is a mean over the whole screen)
+    "D": [("s1", "a", 1.0, "", 0.0, "p1"), ("s1", "a", 1.0, "", 0.0, "p2"), ("s1", "", 0.0, "b", 1.0, "p1"),
+          ("s1", "a", 1.0, "b", 1.0, "p1"), ("s1", "", 0.0, "b", 1.0, "p2"), ("s2", "a", 1.0, "", 0.0, "p2")],
 }
-OBSERVED_PLATES = {"A": {"p1"}, "B": set(), "C": {"q", "r"}}
+OBSERVED_PLATES = {"A": {"p1"}, "B": set(), "C": {"q", "r"}, "D": {"p1"}}
 
 
 def configs(tier, seed):
     out = []
     for R in ((4,) if tier == "quick" else (4, 5, 6)):
-        for st in ("A", "B", "C"):
+        for st in ("A", "B", "C", "D"):
             out.append(dict(name="views %s R=%d" % (st, R), h="views", st=st, R=R))
             out.append(dict(name="plates %s R=%d" % (st, R), h="plates", st=st, R=R))
             out.append(dict(name="split after set_observed / merge %s R=%d" % (st, R), h="split", st=st, R=R))
@@ -115,6 +118,15 @@ def _check_view(ctx, view, screen, idx, label):
         got = _attr_rows(view, at)
         ctx.prove(_eq_rows(ctx, got, want), label + ": %s = parent's values at the selected rows, in order" % at)
     ctx.prove(view.size == len(idx), label + ": size is the number of selected rows")
+    # the single-agent effects of a row are a property of the parent screen (means over all its single-agent measurements)
+    pe = screen.single_treatment_effects
+    ve = view.single_treatment_effects
+    if pe is None:
+        ctx.prove(ve is None, label + ": single_treatment_effects is None when the parent has none")
+    else:
+        ctx.prove(ve is not None and _eq_rows(ctx, ve.tolist(), [pe.tolist()[i] for i in idx]),
+                  label + ": single_treatment_effects = parent's values at the selected rows, in order",
+                  key="view reports single-agent effects of its own instead of the parent's")
 
 
 def _bits(ctx, prefix, n):
